@@ -83,17 +83,17 @@ func (f *FrameV1) Unseal(s *state.Session) error {
 		return s.Signing().Seq().Check(f.SequenceTime())
 
 	case MessageClassPriorityEncrypted, MessageClassEncrypted:
-		seqNum := f.SequenceNum()
-		c, err := s.Encryption().In(seqNum, msgClass == MessageClassPriorityEncrypted)
-		if err != nil {
-			return err
-		}
-
-		// Decrypt.
-		if err := f.decryptFrame(c); err != nil {
-			return fmt.Errorf("decrypt: %w", err)
-		}
-		return s.Encryption().Check(seqNum, msgClass == MessageClassPriorityEncrypted)
+		// Select the cipher, decrypt and check the sequence number in one step.
+		return s.Encryption().Open(
+			f.SequenceNum(),
+			msgClass == MessageClassPriorityEncrypted,
+			func(c cipher.AEAD) error {
+				if err := f.decryptFrame(c); err != nil {
+					return fmt.Errorf("decrypt: %w", err)
+				}
+				return nil
+			},
+		)
 
 	case MessageClassUnknown:
 		fallthrough
